@@ -329,17 +329,27 @@ Proof.
     exists c. split; [|split; assumption]. apply (rep_actor m fs (g, c) R Hin).
 Qed.
 
-(** upper bound of the split-offs that lie INSIDE a file (raised by a snapshot pointer): a delete-from
-    at or above it never cuts a file below its split-off *)
+(** upper bound [fl] of everything a snapshot pointer protects: the split-offs that lie INSIDE a file
+    (raised by a pointer), and the end of a head file with id 0 (a pointer file in front of file 1).
+    A delete-from at or above [fl] never cuts a file below its split-off nor empties a pointer file. *)
 Definition floor_ok (fl : N) (fs : list mfile) : Prop :=
-  Forall (fun f => c_first (snd f) < c_split (snd f) -> c_split (snd f) <= fl) fs.
+  Forall (fun f => c_first (snd f) < c_split (snd f) -> c_split (snd f) <= fl) fs /\
+  match fs with f :: _ => f_id f = 0 -> c_end (snd f) <= fl | [] => True end.
+
+(** side condition found by the proof of mgr_strip_rep: the head file has id >= 1 or is wholly kept *)
+Definition cut_head_ok (fs : list mfile) (k : N) : Prop :=
+  match fs with f :: _ :: _ => 1 <= f_id f \/ c_end (snd f) <= k | _ => True end.
 
 Lemma floor_ok_cut (fs : list mfile) fl k a :
-  Forall file_ok fs -> floor_ok fl fs -> files_first fs = Some a -> a <= k -> fl <= k -> k < U64MAX -> cut_ok fs k.
+  Forall file_ok fs -> floor_ok fl fs -> files_first fs = Some a -> a <= k -> fl <= k -> k < U64MAX ->
+  cut_ok fs k /\ cut_head_ok fs k.
 Proof.
-  intros Hok Hfl Ha Hak Hflk Hk. split; [exists a; auto|]. split; [exact Hk|].
-  apply Forall_forall. intros [g c] Hin Hs. cbn [fst snd] in *.
-  rewrite Forall_forall in Hok, Hfl. destruct (Hok _ Hin) as (W & Hfirst & _). specialize (Hfl _ Hin). cbn [snd] in Hfl.
-  pose proof (wf_split c W). destruct (N.eq_dec (c_first c) (c_split c)) as [E|E]; [lia|].
-  assert (c_first c < c_split c) by lia. specialize (Hfl H0). lia.
+  intros Hok [Hfl Hhd] Ha Hak Hflk Hk. split.
+  - split; [exists a; auto|]. split; [exact Hk|].
+    apply Forall_forall. intros [g c] Hin Hs. cbn [fst snd] in *.
+    rewrite Forall_forall in Hok, Hfl. destruct (Hok _ Hin) as (W & Hfirst & _). specialize (Hfl _ Hin). cbn [snd] in Hfl.
+    pose proof (wf_split c W). destruct (N.eq_dec (c_first c) (c_split c)) as [E|E]; [lia|].
+    assert (c_first c < c_split c) by lia. specialize (Hfl H0). lia.
+  - unfold cut_head_ok. destruct fs as [|f [|f2 rest]]; try exact I.
+    destruct (N.eq_dec (f_id f) 0) as [E|E]; [right; specialize (Hhd E); lia|left; lia].
 Qed.
